@@ -95,6 +95,30 @@ def _pure(e) -> bool:
     return False
 
 
+_SIMPLE_CALLS = {"ctypes.sizeof", "sizeof", "len", "int", "float", "bool", "str", "bytes", "min", "max", "abs", "tuple", "list"}
+
+
+def _simple(e) -> bool:
+    """an expression without side effects whose value does not depend on when it is evaluated within a short helper"""
+    if _pure(e):
+        return True
+    if isinstance(e, ast.Call):
+        return ast.unparse(e.func) in _SIMPLE_CALLS and not e.keywords and all(_simple(a) for a in e.args)
+    if isinstance(e, ast.BinOp):
+        return _simple(e.left) and _simple(e.right)
+    if isinstance(e, ast.UnaryOp):
+        return _simple(e.operand)
+    if isinstance(e, ast.BoolOp):
+        return all(_simple(v) for v in e.values)
+    if isinstance(e, ast.Compare):
+        return _simple(e.left) and all(_simple(c) for c in e.comparators)
+    if isinstance(e, ast.Subscript):
+        return _simple(e.value) and (isinstance(e.slice, ast.Slice) or _simple(e.slice))
+    if isinstance(e, (ast.Tuple, ast.List)):
+        return all(_simple(x) for x in e.elts)
+    return False
+
+
 class _Rename(ast.NodeTransformer):
     def __init__(self, rename: Dict[str, str], subst: Dict[str, ast.expr]):
         self.rename, self.subst = rename, subst
@@ -234,8 +258,13 @@ class Expander:
                 elif isinstance(n, ast.ExceptHandler) and n.name:
                     stored.add(n.name)
         rename, subst, pre = {}, {}, []
+        loads: Dict[str, int] = {}
+        for s_ in body:
+            for n in _walk_no_nested(s_):
+                if isinstance(n, ast.Name) and isinstance(n.ctx, ast.Load):
+                    loads[n.id] = loads.get(n.id, 0) + 1
         for p, v in actual.items():
-            if p not in stored and _pure(v):
+            if p not in stored and (_pure(v) or (_simple(v) and loads.get(p, 0) <= 1)):
                 subst[p] = v
             else:
                 rename[p] = p + suf
@@ -247,8 +276,22 @@ class Expander:
         for n in stored:
             if n not in rename:
                 rename[n] = n + suf
+        # `x = self.make(...)` where make builds one local and returns it at its end: let that local *be* x (no alias)
+        drop_tail = False
+        if mode == "assign" and isinstance(target, ast.Name) and body and isinstance(body[-1], ast.Return) and isinstance(body[-1].value, ast.Name) \
+                and body[-1].value.id in stored and body[-1].value.id not in actual and not _contains(body[:-1], ast.Return):
+            tname = target.id
+            lname = body[-1].value.id
+            clash = (tname != lname and any(isinstance(n, ast.Name) and n.id == tname for st_ in body for n in _walk_no_nested(st_))) \
+                or any(isinstance(n, ast.Name) and n.id == tname for v in actual.values() for n in ast.walk(v))
+            if not clash:
+                rename[body[-1].value.id] = tname
+                drop_tail = True
         rn = _Rename(rename, subst)
         body = [rn.visit(s) for s in body]
+        if drop_tail:
+            body = body[:-1]
+            mode = "stmt"
         if mode == "return":
             if not _always_returns(body):
                 body = body + [ast.Return(value=ast.Constant(value=None))]
@@ -468,6 +511,22 @@ def prune_dead_helpers(trees: Dict[str, ast.Module]) -> List[str]:
     kf = known_functions()
     if not kf:
         return []
+    # a dispatch table all of whose uses were expanded is dead data: drop it first, so that the method names it holds
+    # do not count as references
+    attr_refs: Dict[str, int] = {}
+    for t in trees.values():
+        for n in ast.walk(t):
+            if isinstance(n, ast.Attribute):
+                attr_refs[n.attr] = attr_refs.get(n.attr, 0) + 1
+            elif isinstance(n, ast.Name) and isinstance(n.ctx, ast.Load):
+                attr_refs[n.id] = attr_refs.get(n.id, 0) + 1
+    for mod, t in trees.items():
+        for cls in [c for c in t.body if isinstance(c, ast.ClassDef)]:
+            tabs = TableEvaluator._class_tables(cls)
+            dead = {nm for nm in tabs if attr_refs.get(nm, 0) == 0}
+            if dead:
+                cls.body = [st for st in cls.body if not ((isinstance(st, ast.Assign) and len(st.targets) == 1 and isinstance(st.targets[0], ast.Name) and st.targets[0].id in dead)
+                                                          or (isinstance(st, ast.AnnAssign) and isinstance(st.target, ast.Name) and st.target.id in dead))] or [ast.Pass()]
     refs: Dict[str, int] = {}
     for t in trees.values():
         for n in ast.walk(t):
